@@ -17,6 +17,7 @@ package main
 
 import (
 	"fmt"
+	"runtime/debug"
 	"sync"
 	"sync/atomic"
 	"syscall"
@@ -156,6 +157,7 @@ func (s *Sim) Run() {
 		s.wg.Add(1)
 		go func(t *Task) {
 			defer s.wg.Done()
+			debug.SetPanicOnFault(true) // per goroutine: a read through an unmapped segment becomes a recoverable panic
 			t.waitResume()
 			func() {
 				defer func() {
